@@ -47,7 +47,10 @@ structure Tx where
 def decodeOk (t : Tx) : Bool :=
   if t.eraType ≤ GV.Gen.G1Consts.txTypeMaryEra then decide (t.n ≥ 3)
   else if t.eraType ≤ GV.Gen.G1Consts.txTypeConwayEra then decide (t.n = 4)
-  else decide (t.n = 3 ∨ t.n = 4)
+  else
+    -- Dijkstra: `validateDijkstraTransactionCborSize` rejects encodings above the
+    -- decode-time limit before looking at the envelope
+    decide (t.bytes.length ≤ GV.Gen.G1Consts.dijkstraDecodeMaxTxSize) && decide (t.n = 3 ∨ t.n = 4)
 
 /-- `common.TxSizeForFee` for a decoded transaction (stored bytes non-empty). The
     last branch is the component count by full decode used when the header-only
